@@ -204,6 +204,12 @@ func (e *Environment) MakeRegister(originalName string, v int64) Register {
 	return r
 }
 
+// ReleaseAllRegisters gives back every register of this environment. Used after a panic was recovered:
+// the loops that were holding them are gone without having released them.
+func (e *Environment) ReleaseAllRegisters() {
+	e.numReg = 0
+}
+
 func (e *Environment) ReleaseRegister(register Register) {
 	if register.Idx != e.numReg-1 {
 		panic(fmt.Sprintf("Releasing non last register %s %d != %d", register.Literal(), register.Idx, e.numReg-1))
